@@ -221,6 +221,11 @@ class Run(object):
             r.label('ood:' + ood)
         if op == 'binop':
             r.label('binop-operand:' + step['args']['other'][0])
+            if step['args'].get('swap'):
+                r.label('binop-operand:swapped')
+        if op == 'interp':
+            r.label('interp:nd-coordinate' if step['args'].get('coordkey')
+                    else 'interp:1d-coordinate')
         if before.ioapi_degraded:
             r.label('on-degraded-ioapi')
             klass += '/degraded'
@@ -318,11 +323,8 @@ def _nonconforming_binop(journal):
                for st_ in journal.get('steps', []))
 
 
-known.register('C01-pncbo-broadcast-up', lambda spec, f: (
-    f.clause == 'malformed' and f.klass.split('/')[0].startswith('binop:')
-    and not f.klass.endswith('/live') and 'result of binop' in f.detail and
-    ' has shape ' in f.detail and _nonconforming_binop(spec)))
-
+# C01-pncbo-broadcast-up: fixed in /repo 9804299 (regression pinned as
+# replays/C01/fixed-pncbo-broadcast-up.json); no matcher any more
 known.register('C01-ioapi-var-redim', lambda spec, f: (
     f.clause == 'malformed' and 'baddims=VAR ' in f.detail and
     'cls=ioapi' in _ctx(f) and 'degraded' in _ctx(f)))
